@@ -55,6 +55,19 @@ def sig_programs():
                 [('2x2', [Obj('P', qa=[Obj('Q', q=1, ra=[Obj('R', v=10), Obj('R', v=11)]), Obj('Q', q=2, ra=[Obj('R', v=20), Obj('R', v=21)])])]),
                  ('ragged', [Obj('P', qa=[Obj('Q', q=1, ra=[Obj('R', v=10)]), Obj('Q', q=2, ra=[Obj('R', v=20), Obj('R', v=21), Obj('R', v=22)]),
                                           Obj('Q', q=3, ra=None)])])]))
+    # heterogeneous object arrays: every pattern of which members each of 3 elements spells (an element spelling a
+    # member its predecessors left out changes the sorted key order - the strict_arrays index bookkeeping depends on it)
+    QH = {'n': 'Q', 'fields': [['q', I], ['s', U]]}
+    PH = {'n': 'P', 'fields': [['qa', ['a', ['c', 'Q', {}], {}]]]}
+    mh = {'n': 'm', 'args': [['a', ['c', 'P', {}]]], 'ret': I}
+    hc = []
+    for n in (3, 4):
+        for pat in itertools.product(('q', 's', 'qs'), repeat=n):
+            if n == 4 and ('qs' in pat or len(set(pat)) == 1):
+                continue   # length 4: only the patterns with one member per element
+            els = [Obj('Q', q=(10 + i if 'q' in w else None), s=('v%d' % i if 's' in w else None)) for i, w in enumerate(pat)]
+            hc.append(('-'.join(pat), [Obj('P', qa=els)]))
+    out.append(('hetero', {'tns': TNS, 'classes': [QH, PH], 'services': [{'n': 'S', 'methods': [mh]}]}, hc))
     return out
 
 
